@@ -68,10 +68,11 @@ type ldName struct {
 }
 
 type ldItem struct {
-	T    string `json:"t"`
-	S    string `json:"s"`
-	Kind string `json:"kind"`
-	Name ldName `json:"name"`
+	T     string   `json:"t"`
+	S     string   `json:"s"`
+	Kind  string   `json:"kind"`
+	Name  ldName   `json:"name"`
+	Items []ldItem `json:"items"` // t = "block"
 }
 
 type ldFile struct {
@@ -104,6 +105,14 @@ func itemsText(items []ldItem, root string) (src string, lazyNames map[string]st
 	for i, it := range items {
 		if it.T == "text" {
 			b.WriteString(it.S)
+			continue
+		}
+		if it.T == "block" {
+			inner, ln := itemsText(it.Items, root)
+			for k, v := range ln {
+				lazyNames[k] = v
+			}
+			b.WriteString("{% block b %}" + inner + "{% endblock %}")
 			continue
 		}
 		n := nameText(it.Name, root)
@@ -178,11 +187,16 @@ func cmdC11Replay(args []string) {
 				tmp := &vfsLoader{root: root, rel: relFlavour}
 				for _, files := range v.Loaders {
 					for _, f := range files {
-						for _, it := range f.Items {
-							if it.Kind == "import" {
-								importTargets[tmp.Abs(root+"/"+strings.Join(f.Path, "/"), nameText(it.Name, root))] = true
+						var scan func(items []ldItem)
+						scan = func(items []ldItem) {
+							for _, it := range items {
+								if it.Kind == "import" {
+									importTargets[tmp.Abs(root+"/"+strings.Join(f.Path, "/"), nameText(it.Name, root))] = true
+								}
+								scan(it.Items)
 							}
 						}
+						scan(f.Items)
 					}
 				}
 			}
